@@ -403,6 +403,9 @@ pub fn run_concurrent(sc: &Scenario) -> RunReport {
     let r = on_fresh_thread(sc.key_seed, move || {
         let mut rep = RunReport::default();
         os::install(os::SimOs::new());
+        if sc.mode == "handshake" {
+            return run_handshake(&sc, rep);
+        }
         if sc.mode == "shared_code" || sc.mode == "shared_fn" || sc.mode == "indep" {
             return run_shared_code(&sc, rep);
         }
@@ -636,6 +639,200 @@ fn linearizable(entries: &[&HistEntry]) -> bool {
 /// of the interpreter (statics, memo tables). Each thread must get what its program yields alone;
 /// the sequential references are computed AFTER the concurrent run (the programs are pure functions
 /// of their text), so the concurrent run is the first the process sees of these types.
+/// Bounded liveness (C16: "no interleaving of executions deadlocks"; a thread that spins for ever
+/// on a condition another thread has long established is as stuck as a blocked one, only the
+/// scheduler cannot see it). `prog` declares host cells; every thread runs its statements (parsed
+/// beforehand against the live interpreter, so the cells are known constants of the code) in
+/// order. A thread with a statement marked `@poll ` waits in a loop for something the other
+/// threads (the signallers) establish; ` @=> n` is the value its statement must yield.
+/// Oracle: from the moment the last signaller has finished, every polling loop sees its exit
+/// condition at its next evaluation, so at most one more iteration per poller may start; the
+/// simulator grants eight per poller (`fuel::arm_progress`) and reports more as `no-progress`.
+/// The scheduler is the (probabilistically fair) random one; a poller that uses up the loop budget
+/// before the signallers are done gives no verdict.
+pub const HANDSHAKES: &[(&str, &[&[&str]])] = &[
+    ("flag := mut true; ticks := mut 0", &[&["@poll while *flag { ticks += 1 }; 1 @=> 1"], &["flag = false"]]),
+    ("ready := mut false; data := mut 0", &[&["@poll while *ready == false {}; *data @=> 42"], &["data = 42", "ready = true"]]),
+    ("count := mut 0", &[&["@poll while *count < 2 {}; *count @=> 2"], &["count += 1"], &["count += 1"]]),
+    ("flag := mut true", &[&["@poll loop { if *flag { } else { break } }; 5 @=> 5"], &["flag ^= true"]]),
+    ("go := mut true; stop := mut false; n := mut 0", &[&["@poll while *go && *stop == false { n += 1 }; 3 @=> 3"], &["stop |= true"]]),
+    ("arr := mut [0]", &[&["@poll while std.len(*arr) < 3 {}; std.len(*arr) @=> 3"], &["arr += [1]", "arr += [2]"]]),
+    ("flag := mut true; get := () -> bool { return *flag }", &[&["@poll while get() {}; 9 @=> 9"], &["flag = false"]]),
+    ("flag := mut true; a := mut 0; b := mut 0", &[&["@poll while *flag { a += 1 }; 1 @=> 1"], &["@poll while *flag { b += 1 }; 2 @=> 2"], &["flag = false"]]),
+    ("left := mut 3; spin := () -> int { while *left > 0 { }; return *left }", &[&["@poll spin() @=> 0"], &["left -= 1", "left -= 1", "left -= 1"]]),
+    ("s := mut \"\"", &[&["@poll while *s == \"\" {}; std.len(*s) @=> 2"], &["s += \"ok\""]]),
+    ("u := mut int|string 0", &[&["@poll while x: int = *u {}; 4 @=> 4"], &["u = \"done\""]]),
+    ("lo := mut 0; hi := mut 10; k := mut 0", &[&["@poll while *lo < *hi { k += 1 }; 6 @=> 6"], &["hi -= 4", "lo += 6"]]),
+    ("f := mut 1.5", &[&["@poll while *f > 0.0 {}; 8 @=> 8"], &["f -= 1.0", "f *= -1.0"]]),
+    ("flag := mut true; seen := mut 0", &[&["seen += 1", "@poll while *flag { seen |= 2 }; *seen & 1 @=> 1"], &["flag &= false"]]),
+    ("c := mut mut 1; z := mut 0", &[&["@poll while *(*c) != 0 {}; 7 @=> 7"], &["c = z"]]),
+];
+
+/// Development aid (`simctl handshakes <n>`): every template under n scheduler seeds.
+pub fn handshake_survey(n: u64) {
+    crate::boot::boot(1);
+    for (i, (setup, threads)) in HANDSHAKES.iter().enumerate() {
+        let mut tally: std::collections::BTreeMap<String, u64> = Default::default();
+        let t0 = std::time::Instant::now();
+        let mut steps = 0usize;
+        for k in 0..n {
+            let threads = threads.iter().map(|t| t.iter().map(|s| Op { cell: 0, path: 0, kind: OpKind::Attack(s.to_string()) }).collect()).collect();
+            let sc = Scenario { boot_seed: 1, key_seed: k, mode: "handshake".into(), threads, prog: setup.to_string(), policy: Policy::Random { stick: [0u8, 4, 8][(k % 3) as usize] }, sched_seed: k * 7919 + 1, lock_policy: 0 };
+            let rep = run_scenario(&sc);
+            steps += rep.choices.len();
+            let key = match (&rep.violation, &rep.harness_error) {
+                (Some((c, d)), _) => format!("VIOLATION {c}: {d:.200}"),
+                (_, Some(h)) => format!("HARNESS {h:.200}"),
+                _ if rep.log.iter().any(|l| l.starts_with("inconclusive")) => "inconclusive".into(),
+                _ => "ok".into(),
+            };
+            *tally.entry(key).or_default() += 1;
+        }
+        println!("#{i} `{setup}` mean_steps={} {:.1} ms/run {tally:?}", steps as u64 / n.max(1), t0.elapsed().as_secs_f64() * 1000.0 / n.max(1) as f64);
+    }
+}
+
+fn run_handshake(sc: &Scenario, mut rep: RunReport) -> RunReport {
+    simplesl_verif_seams::fuel::reset(1500, 20_000);
+    let mut interp = Interpreter::with_stdlib();
+    match guarded(|| Code::parse(&interp, &sc.prog).map(|c| c.exec_unscoped(&mut interp))) {
+        Ok(Ok(Ok(_))) => {}
+        other => {
+            rep.harness_error = Some(format!("handshake set-up `{}` failed: {:?}", sc.prog, other.map(|r| r.map(|r| r.map(|_| ()).map_err(|e| exec_err_name(&e))).map_err(|e| e.to_string()))));
+            return rep;
+        }
+    }
+    // (code, expected value) per statement; poller flag per thread
+    let mut codes: Vec<Vec<(String, Code, Option<i64>)>> = Vec::new();
+    let mut pollers = 0u64;
+    let mut is_poller = Vec::new();
+    for t in &sc.threads {
+        let mut v = Vec::new();
+        let mut poll = false;
+        for op in t {
+            let OpKind::Attack(text) = &op.kind else { continue };
+            let (text, want) = match text.split_once(" @=> ") {
+                Some((a, b)) => (a.to_string(), b.trim().parse::<i64>().ok()),
+                None => (text.clone(), None),
+            };
+            let src = match text.strip_prefix("@poll ") {
+                Some(s) => {
+                    poll = true;
+                    s.to_string()
+                }
+                None => text,
+            };
+            match guarded(|| Code::parse(&interp, &src)) {
+                Ok(Ok(c)) => v.push((src, c, want)),
+                other => {
+                    rep.harness_error = Some(format!("handshake statement rejected: `{src}`: {:?}", other.map(|r| r.map(|_| ()).map_err(|e| e.to_string()))));
+                    return rep;
+                }
+            }
+        }
+        pollers += poll as u64;
+        is_poller.push(poll);
+        codes.push(v);
+    }
+    let signallers = is_poller.iter().filter(|p| !**p).count();
+    let shared = Arc::new(Shared {
+        codes: vec![],
+        hist: Mutex::new(vec![]),
+        stamp: AtomicU64::new(signallers as u64),
+        lock_policy: sc.lock_policy,
+        lock_result: Mutex::new(None),
+        results: Mutex::new(Vec::new()),
+        inflight: Mutex::new(vec![None; sc.threads.len()]),
+    });
+    let codes = Arc::new(codes);
+    let is_poller = Arc::new(is_poller);
+    let sh = shared.clone();
+    let cs = codes.clone();
+    let exec = sched::run_once(sc.policy.clone(), sc.sched_seed, move || {
+        sync::sim_begin(sh.lock_policy);
+        let mut handles = Vec::new();
+        for t in 0..cs.len() {
+            let sh2 = sh.clone();
+            let cs2 = cs.clone();
+            let ip = is_poller.clone();
+            handles.push(shuttle::thread::spawn(move || {
+                for (i, (src, code, _)) in cs2[t].iter().enumerate() {
+                    sh2.inflight.lock().unwrap()[t] = Some(format!("T{t} `{src}`"));
+                    let r = match code.exec() {
+                        Ok(v) => cvar(&v),
+                        Err(e) => format!("Err({})", exec_err_name(&e)),
+                    };
+                    sh2.inflight.lock().unwrap()[t] = None;
+                    sh2.results.lock().unwrap().push((t * 100 + i, r));
+                }
+                if !ip[t] && sh2.stamp.fetch_sub(1, Ordering::SeqCst) == 1 {
+                    // the last signaller is done: everything the pollers wait for is established
+                    simplesl_verif_seams::fuel::arm_progress(8 * pollers);
+                }
+            }));
+        }
+        for h in handles {
+            h.join().unwrap();
+        }
+        *sh.lock_result.lock().unwrap() = Some(sync::sim_end());
+    });
+    sync::sim_abort();
+    rep.choices = exec.choices.clone();
+    rep.diverged = exec.diverged;
+    rep.context_switches = exec.context_switches;
+    if let Some((events, probes)) = shared.lock_result.lock().unwrap().take() {
+        rep.lock_events = events.len() as u64;
+        rep.schedule_digest = digest(&format!("{:?}", events.iter().map(|e| (e.actor, e.lock, e.kind as u8)).collect::<Vec<_>>()));
+        rep.probes = probes;
+    }
+    let inflight: Vec<String> = shared.inflight.lock().unwrap_or_else(|p| p.into_inner()).iter().flatten().cloned().collect();
+    match exec.verdict {
+        Verdict::Completed => {}
+        Verdict::Deadlock(m) => {
+            rep.violation = Some(("deadlock".into(), format!("{m}; in flight: {}", inflight.join(" ; "))));
+            return rep;
+        }
+        Verdict::Panic(m) if simplesl_verif_seams::fuel::is_stall_panic(&m) => {
+            rep.violation = Some((
+                "no-progress".into(),
+                format!("after every signalling thread had finished, the polling thread(s) started more than {} further loop iterations without leaving the loop (set-up `{}`); still running: {}", 8 * pollers, sc.prog, inflight.join(" ; ")),
+            ));
+            return rep;
+        }
+        Verdict::Panic(m) if simplesl_verif_seams::fuel::is_fuel_panic(&m) => {
+            // the poller used up the loop budget while a signaller was still under way: no verdict
+            rep.log.push("inconclusive: loop budget used up before the signallers finished".into());
+            rep.history_digest = digest("fuel");
+            return rep;
+        }
+        Verdict::Panic(m) => {
+            rep.violation = Some(("panic".into(), format!("{m}; in flight: {}", inflight.join(" ; "))));
+            return rep;
+        }
+        Verdict::Harness(m) => {
+            rep.harness_error = Some(m);
+            return rep;
+        }
+    }
+    let mut results = shared.results.lock().unwrap_or_else(|p| p.into_inner()).clone();
+    results.sort();
+    rep.events = results.len() as u64 + rep.lock_events;
+    for (k, got) in &results {
+        let (t, i) = (k / 100, k % 100);
+        let (src, _, want) = &codes[t][i];
+        rep.log.push(format!("T{t} `{src}` -> {got}"));
+        if let Some(w) = want {
+            if got != &w.to_string() {
+                rep.violation = Some(("result-mismatch".into(), format!("T{t} `{src}` yielded {got} after the hand-over; it yields {w} in every interleaving (set-up `{}`)", sc.prog)));
+                return rep;
+            }
+        }
+    }
+    rep.history_digest = digest(&format!("{results:?}"));
+    os::uninstall();
+    rep
+}
+
 fn run_indep(sc: &Scenario, mut rep: RunReport) -> RunReport {
     let interp = Interpreter::with_stdlib();
     // a text marked `@warm ` is executed once, sequentially, before the threads start: whatever the
@@ -1105,6 +1302,13 @@ pub fn gen_concurrent(seed: u64, boot_seed: u64, run: u64) -> Scenario {
         2 => Policy::Random { stick: 13 },
         k => Policy::Pct { depth: k - 1 + rng.below(2), est_steps: 10 + rng.below(60) },
     };
+    if rng.chance(1, 24) {
+        // bounded liveness: pollers and signallers over host cells, fair random scheduling only
+        let (setup, threads) = HANDSHAKES[rng.below(HANDSHAKES.len())];
+        let threads = threads.iter().map(|t| t.iter().map(|s| Op { cell: 0, path: 0, kind: OpKind::Attack(s.to_string()) }).collect()).collect();
+        let policy = Policy::Random { stick: [0u8, 4, 8][rng.below(3)] };
+        return Scenario { boot_seed, key_seed, mode: "handshake".into(), threads, prog: setup.to_string(), policy, sched_seed, lock_policy: 0 };
+    }
     if shared_code && rng.chance(1, 4) {
         // independent programs over types this process has never seen; two threads may share a number
         let base = run * 8;
@@ -1276,6 +1480,7 @@ pub fn worker(input: &Value) -> Value {
     let mut overlapped = 0u64;
     let mut rejected: std::collections::BTreeMap<String, u64> = Default::default();
     let mut policies: std::collections::BTreeMap<String, u64> = Default::default();
+    let mut modes: std::collections::BTreeMap<String, u64> = Default::default();
     let mut samples = Vec::new();
     let mut determinism_checked = 0u64;
     let want_trace = input["trace"].as_bool().unwrap_or(false);
@@ -1300,6 +1505,7 @@ pub fn worker(input: &Value) -> Value {
         for r in &rep.rejected_ops {
             *rejected.entry(r.clone()).or_default() += 1;
         }
+        *modes.entry(if rep.log.iter().any(|l| l.starts_with("inconclusive")) { format!("{}/inconclusive", sc.mode) } else { sc.mode.clone() }).or_default() += 1;
         *policies
             .entry(match &sc.policy {
                 Policy::Random { stick } => format!("random/stick{stick}"),
@@ -1351,7 +1557,7 @@ pub fn worker(input: &Value) -> Value {
         "boot_seed": boot_seed, "runs": n, "events": events, "lock_events": lock_events, "context_switches": switches,
         "sched_digests": sched_digests.iter().map(|d| format!("{d:016x}")).collect::<Vec<_>>(),
         "hist_digests": hist_digests.iter().map(|d| format!("{d:016x}")).collect::<Vec<_>>(),
-        "ops": ops, "rejected": rejected, "policies": policies, "failing_ops_fired": failing, "overlapped_rmw_pairs": overlapped,
+        "ops": ops, "rejected": rejected, "policies": policies, "modes": modes, "failing_ops_fired": failing, "overlapped_rmw_pairs": overlapped,
         "probes": {"reader_behind_queued_writer": probes.reader_behind_queued_writer, "nested_read": probes.nested_read,
                    "writer_waited": probes.writer_waited, "reader_waited": probes.reader_waited, "reads": probes.reads, "writes": probes.writes},
         "violations": violations, "harness_errors": harness_errors, "samples": samples, "determinism_checked": determinism_checked, "trace": trace,
@@ -1385,9 +1591,9 @@ fn find_failing(sc: &Scenario, class: &str, budget: u64) -> Option<(Scenario, Ru
     for i in 0..budget {
         let mut s = sc.clone();
         s.sched_seed = derive_n(sc.sched_seed ^ 0xD0D0, "research", i);
-        s.policy = match i % 4 {
+        s.policy = match if sc.mode == "handshake" { i % 2 } else { i % 4 } {
             0 => Policy::Random { stick: 0 },
-            1 => Policy::Random { stick: 10 },
+            1 => Policy::Random { stick: if sc.mode == "handshake" { 6 } else { 10 } },
             2 => Policy::Pct { depth: 2, est_steps: 24 },
             _ => Policy::Pct { depth: 3, est_steps: 40 },
         };
